@@ -1321,6 +1321,7 @@ def check_C20(ctx):
         # sentences of more than a mebibyte (a long literal, a long list, a long flat chain)
         cs.syntax('x eq "%s"' % ('a' * 1100000), 'mebibyte-sentence')
         cs.syntax('x in [%s]' % ', '.join(['1'] * 380000), 'mebibyte-sentence')
+        cs.syntax(' or '.join(['x eq "%s"' % ('a' * 100)] * 10000), 'mebibyte-sentence')
         cs.syntax(' or '.join(['x eq 1'] * 110000), 'mebibyte-sentence')
     res = ctx.run(cs)
     ctx.compare(cs.cases, res, ['lexok', 'toks', 'accept', 'tree'], nontrivial=lambda c, mo: True)
